@@ -342,7 +342,7 @@ def trailerLoop : Nat → Conn → Bytes → Trailer
   | 0, c, _ => .exc .RecursionError c
   | fuel + 1, c, acc =>
     match c.readline with
-    | .tooLong => .exc .ValueError c
+    | .tooLong => .exc .ProtocolError c
     | .stall => .stall c
     | .line l c' =>
       if l.getLast? != some 10 then .exc .NetworkError c'
@@ -383,7 +383,7 @@ def chunkedLoop {D} (dc : Decoder D) (fuel0 : Nat) : Nat → Conn → Acc D → 
             | .ok a2 c2 true => chunkedLoop dc fuel0 fuel c2 a2
             | .ok a2 c2 false =>
               match c2.readline with
-              | .tooLong => .exc .ValueError a2 c2
+              | .tooLong => .exc .ProtocolError a2 c2
               | .stall => .stall a2 c2
               | .line nl c3 =>
                 if nl.length > 2 then .exc .ProtocolError a2 c3
@@ -436,7 +436,7 @@ def finishChunked {D} (w : Wire) (st : Status) (f : Fields) (sc : Bool) (r : Chu
   | .exc e a c' => mkResult w (.exc e) true a.notified c'
   | .stall a c' => mkResult w .stalled false a.notified c'
   | .ok a t c' =>
-    match parseFields true f t with
+    match parseFields false f t with
     | none => mkResult w (.exc .ValueError) true a.notified c'
     | some f' => mkResult w (.ok st f' a.body) sc a.notified c'
 
